@@ -315,10 +315,14 @@ func (a *Asm) MetadataRepeated(r *run.Rng) {
 		if r.Chance(1, 3) {
 			c.Nat(0, 1)
 			x0, y0 := r.Intn(60), r.Intn(60)
+			x1, y1 := x0+r.Intn(60), y0+r.Intn(60)
+			if r.Chance(1, 4) {
+				x0, x1 = x1+1, x0 // an inverted box: this chunk is invalid whatever follows
+			}
 			c.Nat(uint32(x0), 1)
 			c.Nat(uint32(y0), 1)
-			c.Nat(uint32(x0+r.Intn(60)), 1)
-			c.Nat(uint32(y0+r.Intn(60)), 1)
+			c.Nat(uint32(x1), 1)
+			c.Nat(uint32(y1), 1)
 		} else {
 			c.Nat(1, 1)
 			cnt, format := r.Range(1, 8), r.Intn(4)
